@@ -1,7 +1,12 @@
 //! rustc as the correspondence oracle for the table properties C05 and C17.
 //!
 //! `probedrive --tier quick|thorough --seed <u64> --lean <tables_driver> --out <stats.json>
-//!             [--replay <file.json>] [--repo <dir, default /repo>] [--keep]`
+//!             [--only c05|c17] [--replay <file.json>] [--repo <dir, default /repo>] [--keep]`
+//!
+//! `--only c05` builds/runs/reports only the C05 suite (auto-trait rows vs rustc + `rows_c05`),
+//! `--only c17` only the C17 suites (unsafe entry points, escape corpus, self-escape,
+//! `rows_c17`/sites, stale-table check); without it both run. `--replay` is accepted and
+//! ignored: the quantifier is the finite set of table rows, so a replay is a full re-run.
 //!
 //! Builds ONE throw-away cargo workspace under `/tmp/scratch/probe-<pid>/` (three lib crates
 //! that path-depend on the repo, offline, sharing a target dir) and runs ONE
@@ -138,7 +143,7 @@ fn write(path: &Path, content: &str) {
 }
 
 /// Runs cargo check on the workspace; returns per-crate, per-line error diagnostics.
-fn cargo_check(dir: &Path) -> BTreeMap<String, BTreeMap<usize, Diag>> {
+fn cargo_check(dir: &Path, crates: &[&str]) -> BTreeMap<String, BTreeMap<usize, Diag>> {
     let out = Command::new("cargo")
         .arg("check")
         .arg("--workspace")
@@ -203,7 +208,8 @@ fn cargo_check(dir: &Path) -> BTreeMap<String, BTreeMap<usize, Diag>> {
             String::from_utf8_lossy(&out.stderr)
         ));
     }
-    for c in ["probe_autotrait", "probe_unsafety", "probe_escape", "probe_selfescape"] {
+    for c in crates {
+        let c = &format!("probe_{c}");
         if !checked.contains(c) {
             internal(&format!(
                 "crate {c} was not checked:\n{}",
@@ -254,6 +260,7 @@ fn main() {
     let cli = parse_cli();
     let mut repo_dir = PathBuf::from("/repo");
     let mut keep = false;
+    let (mut run_c05, mut run_c17) = (true, true);
     let mut i = 0;
     while i < cli.extra.len() {
         match cli.extra[i].as_str() {
@@ -262,6 +269,14 @@ fn main() {
                 repo_dir = PathBuf::from(cli.extra.get(i).unwrap_or_else(|| internal("--repo value")));
             }
             "--keep" => keep = true,
+            "--only" => {
+                i += 1;
+                match cli.extra.get(i).map(|s| s.to_ascii_lowercase()).as_deref() {
+                    Some("c05") => run_c17 = false,
+                    Some("c17") => run_c05 = false,
+                    _ => internal("--only expects c05 or c17"),
+                }
+            }
             other => internal(&format!("unknown argument {other}")),
         }
         i += 1;
@@ -272,12 +287,21 @@ fn main() {
     if ask("selfcheck") != "1" {
         internal("lean driver selfcheck failed (generated keys do not match their strings)");
     }
+    if let Some(r) = &cli.replay {
+        eprintln!("probedrive: --replay {r} ignored: every run re-checks all rows of the generated tables");
+    }
     let started = std::time::Instant::now();
     let thorough = cli.tier == "thorough";
 
     // ------------------------------------------------------------------ C05 rows
-    let pubtypes: Vec<String> = ask("pubtypes").split(';').map(str::to_string).collect();
-    let extratypes: Vec<String> = ask("extratypes").split(';').map(str::to_string).collect();
+    let (pubtypes, extratypes): (Vec<String>, Vec<String>) = if run_c05 {
+        (
+            ask("pubtypes").split(';').map(str::to_string).collect(),
+            ask("extratypes").split(';').map(str::to_string).collect(),
+        )
+    } else {
+        (vec![], vec![])
+    };
     let backends = [("arc", "::hipstr::Arc"), ("rc", "::hipstr::Rc"), ("unique", "::hipstr::Unique")];
     let mut auto_src = String::from(AUTOTRAIT_PRELUDE);
     let mut auto_rows: Vec<AutoRow> = vec![];
@@ -337,9 +361,13 @@ fn main() {
     }
 
     // ------------------------------------------------------------------ C17 unsafe rows
-    let repo = Repo::load(&repo_dir).unwrap_or_else(|e| internal(&e));
-    let cm = CrateModel::build(&repo).unwrap_or_else(|e| internal(&format!("crate model: {e}")));
-    let collected = pubfns::collect(&cm).unwrap_or_else(|e| internal(&format!("translator: {e}")));
+    let collected = if run_c17 {
+        let repo = Repo::load(&repo_dir).unwrap_or_else(|e| internal(&e));
+        let cm = CrateModel::build(&repo).unwrap_or_else(|e| internal(&format!("crate model: {e}")));
+        pubfns::collect(&cm).unwrap_or_else(|e| internal(&format!("translator: {e}")))
+    } else {
+        pubfns::Collected { rows: vec![], sites: vec![] }
+    };
     let flagged: Vec<&pubfns::FnRow> = collected
         .rows
         .iter()
@@ -347,7 +375,7 @@ fn main() {
         .collect();
     // the Lean side must see the same flagged rows (same generated table)
     let lean_flagged: BTreeSet<String> = {
-        let a = ask("unsafe_rows");
+        let a = if run_c17 { ask("unsafe_rows") } else { "none".to_string() };
         if a == "none" {
             BTreeSet::new()
         } else {
@@ -360,6 +388,7 @@ fn main() {
         let only_lean: Vec<_> = lean_flagged.difference(&rust_flagged).cloned().collect();
         let only_rust: Vec<_> = rust_flagged.difference(&lean_flagged).cloned().collect();
         disagreements.push(json!({
+                "property": "C17",
             "kind": "impl-vs-model",
             "input": ["unsafe_rows"],
             "expected": format!("the compiled Gen/PubFns table to flag the rows the source flags; only in source: {only_rust:?}"),
@@ -409,13 +438,14 @@ fn main() {
     }
 
     // ------------------------------------------------------------------ C17 escape corpus
-    let escape = parse_escape();
+    let escape = if run_c17 { parse_escape() } else { vec![] };
     for p in &escape {
         if let Some(row) = &p.row {
             let ans = ask(&format!("tied {row}"));
             let expect = if p.must_fail { "1" } else { "0" };
             if ans != expect {
                 disagreements.push(json!({
+                "property": "C17",
                     "kind": "impl-vs-model",
                     "input": [format!("tied {row}")],
                     "expected": format!("{expect} (corpus probe `{}` is {})", p.name, if p.must_fail { "must_fail: the model must tie the output regions of this fn to its inputs" } else { "must_compile: the model must list this fn's output region as free" }),
@@ -480,9 +510,19 @@ fn main() {
         .map(|f| format!("\"{f}\""))
         .collect::<Vec<_>>()
         .join(", ");
+    let mut crates: Vec<&str> = vec![];
+    if run_c05 {
+        crates.push("autotrait");
+    }
+    if run_c17 {
+        crates.extend(["unsafety", "escape", "selfescape"]);
+    }
     write(
         &dir.join("Cargo.toml"),
-        "[workspace]\nmembers = [\"autotrait\", \"unsafety\", \"escape\", \"selfescape\"]\nresolver = \"2\"\n",
+        &format!(
+            "[workspace]\nmembers = [{}]\nresolver = \"2\"\n",
+            crates.iter().map(|c| format!("\"{c}\"")).collect::<Vec<_>>().join(", ")
+        ),
     );
     write(&dir.join(".cargo/config.toml"), "[net]\noffline = true\n");
     std::fs::copy(repo_dir.join("Cargo.lock"), dir.join("Cargo.lock"))
@@ -494,6 +534,9 @@ fn main() {
         ("escape", &ESCAPE_SRC.to_string()),
         ("selfescape", &self_src),
     ] {
+        if !crates.contains(&krate) {
+            continue;
+        }
         let manifest = PACKAGE_TMPL
             .replace("@NAME@", &format!("probe_{krate}"))
             .replace("@REPO@", &repo_abs.to_string_lossy())
@@ -501,7 +544,7 @@ fn main() {
         write(&dir.join(krate).join("Cargo.toml"), &manifest);
         write(&dir.join(krate).join("src/lib.rs"), src);
     }
-    let diags = cargo_check(&dir);
+    let diags = cargo_check(&dir, &crates);
     cleanup();
     let empty = BTreeMap::new();
 
@@ -539,6 +582,7 @@ fn main() {
             let spec = r.backend != "rc";
             if rejected == spec {
                 disagreements.push(json!({
+                "property": "C05",
                     "kind": "impl-vs-oracle",
                     "input": [r.code.clone()],
                     "expected": format!("C05: {}<{}>: {} must {}", r.ty, r.backend, r.tr, if spec {"hold"} else {"NOT hold (non-atomic share count)"}),
@@ -549,6 +593,7 @@ fn main() {
         }
         if rejected == r.model {
             disagreements.push(json!({
+                "property": "C05",
                 "kind": "impl-vs-model",
                 "input": [format!("autotrait {} {} {}", r.tr, r.ty, r.backend), r.code.clone()],
                 "expected": format!("model holds = {} ({} variant)", r.model, r.variant),
@@ -578,6 +623,7 @@ fn main() {
             Some(d) if d.codes.contains("E0133") && d.codes.len() == 1 => n_unsafe_ok += 1,
             Some(d) => internal(&format!("unsafe probe `{}` failed with {:?} {:?}", r.u_code, d.codes, d.messages)),
             None => disagreements.push(json!({
+                "property": "C17",
                 "kind": "impl-vs-oracle",
                 "input": [r.u_code.clone()],
                 "expected": format!("rejected with E0133: {} ({}) has an `_unchecked` name or a `# Safety` section, so it must be an unsafe fn", r.name, r.loc),
@@ -607,6 +653,7 @@ fn main() {
             n_escape_ok += 1;
         } else {
             disagreements.push(json!({
+                "property": "C17",
                 "kind": "impl-vs-oracle",
                 "input": p.text.lines().collect::<Vec<_>>(),
                 "expected": if p.must_fail { "rejected by the borrow checker (borrowed data escapes)" } else { "accepted" },
@@ -646,6 +693,7 @@ fn main() {
         self_programs.insert(r.name.clone(), (r.code.clone(), rejected));
         if rejected != r.predicted_reject {
             disagreements.push(json!({
+                "property": "C17",
                 "kind": "impl-vs-model",
                 "input": [r.code.clone()],
                 "expected": format!("lifetime skeleton of {} ({}) predicts: {}", r.name, r.loc, if r.predicted_reject {"rejected (an output region is the &self borrow)"} else {"accepted (no output region is the &self borrow)"}),
@@ -657,6 +705,9 @@ fn main() {
 
     // ------------------------------------------------------------------ the table theorems' row predicates
     for q in ["rows_c05", "rows_c17"] {
+        if (q == "rows_c05" && !run_c05) || (q == "rows_c17" && !run_c17) {
+            continue;
+        }
         let a = ask(q);
         if a != "none" {
             for row in a.split(" ; ") {
@@ -666,6 +717,7 @@ fn main() {
                     .find(|(name, _)| row.contains(&format!(": {name} ")))
                     .map(|(_, (code, rejected))| format!("{code}  // rustc {}", if *rejected {"rejects"} else {"ACCEPTS: the result outlives the local receiver"}));
                 disagreements.push(json!({
+                "property": if q == "rows_c05" { "C05" } else { "C17" },
                     "kind": "monitor",
                     "input": [q, program.unwrap_or_default()],
                     "expected": "no falsifying row for the table theorem",
@@ -681,29 +733,59 @@ fn main() {
     }
 
     let programs = auto_rows.len() + 2 * unsafe_rows.len() + escape.len() + self_rows.len();
+    let mut distribution = serde_json::Map::new();
+    let mut rules: Vec<&str> = vec![];
+    let mut checked = programs;
+    let mut nontrivial = 0;
+    if run_c05 {
+        distribution.insert("c05_rows".into(), json!(auto_rows.len()));
+        distribution.insert("c05_rustc_accepts".into(), json!(n_accept));
+        distribution.insert("c05_rustc_rejects".into(), json!(n_reject));
+        rules.push("C05: rustc accept/reject of `need_send/need_sync::<T<B>>()` == Lean `holds` == (backend != Rc), for every (public type x backend x trait x lifetime variant) row; plus the row predicates of the C05 theorems (`rows_c05`)");
+        // every pubTypes row is compared twice (model, property); + rows_c05
+        checked += auto_rows.iter().filter(|r| r.backend != "-").count() + 1;
+        nontrivial += n_reject;
+    }
+    if run_c17 {
+        distribution.insert("c17_unsafe_rows".into(), json!(unsafe_rows.len()));
+        distribution.insert("c17_unsafe_rejected_E0133".into(), json!(n_unsafe_ok));
+        distribution.insert("c17_unsafe_unprobed".into(), json!(unprobed));
+        distribution.insert("c17_escape_programs".into(), json!(escape.len()));
+        distribution.insert("c17_escape_as_expected".into(), json!(n_escape_ok));
+        distribution.insert("c17_selfescape_programs".into(), json!(self_rows.len()));
+        distribution.insert("c17_selfescape_rejected".into(), json!(n_self_reject));
+        distribution.insert("c17_selfescape_skipped".into(), json!(self_skipped));
+        distribution.insert("c17_table_rows".into(), json!(collected.rows.len()));
+        distribution.insert("c17_sites".into(), json!(collected.sites.len()));
+        rules.push("C17: every `_unchecked`/`# Safety`/unsafe row of the public-function table called without `unsafe` is rejected (E0133) and compiles inside `unsafe {}`; every escape-corpus program gets the expected borrowck verdict and the model's `tied` answer; every self-escape program's verdict equals the lifetime skeleton's prediction; the compiled Gen/PubFns flags the same rows as the source; plus the row predicates of the C17 theorems (`rows_c17`)");
+        // + `tied` answers of the corpus, the stale-table check, rows_c17
+        checked += escape.iter().filter(|p| p.row.is_some()).count() + 2;
+        nontrivial += unsafe_rows.len() + escape.iter().filter(|p| p.must_fail).count() + n_self_reject;
+        for r in unsafe_rows.iter().take(2) {
+            samples.push(json!({"program": r.u_code, "rustc": "reject (E0133)", "row": r.name}));
+        }
+        for p in escape.iter().take(2) {
+            samples.push(json!({"program": p.text.lines().collect::<Vec<_>>(), "expect": if p.must_fail {"reject"} else {"accept"}, "probe": p.name}));
+        }
+        for r in self_rows.iter().take(2) {
+            samples.push(json!({"program": r.code, "predicted": if r.predicted_reject {"reject"} else {"accept"}, "row": r.name}));
+        }
+    }
+    let properties: Vec<&str> = [(run_c05, "C05"), (run_c17, "C17")]
+        .iter()
+        .filter(|(on, _)| *on)
+        .map(|(_, n)| *n)
+        .collect();
     let stats = json!({
         "evaluations": programs,
-        "distinct_nontrivial": n_reject + unsafe_rows.len() + escape.iter().filter(|p| p.must_fail).count(),
-        "rule": "rustc verdict (cargo check, one fn per probe, errors attributed by line) == Lean model (`holds` for C05; table flags / `tied` for C17) for every row of the generated tables + the escape corpus",
+        "distinct_nontrivial": nontrivial,
+        "rule": rules.join(" || "),
         "exhaustive": true,
+        "properties": properties,
         "programs": programs,
-        "disagreements_checked": programs + escape.iter().filter(|p| p.row.is_some()).count() + 1,
+        "disagreements_checked": checked,
         "seconds": started.elapsed().as_secs_f64(),
-        "distribution": {
-            "c05_rows": auto_rows.len(),
-            "c05_rustc_accepts": n_accept,
-            "c05_rustc_rejects": n_reject,
-            "c17_unsafe_rows": unsafe_rows.len(),
-            "c17_unsafe_rejected_E0133": n_unsafe_ok,
-            "c17_unsafe_unprobed": unprobed,
-            "c17_escape_programs": escape.len(),
-            "c17_escape_as_expected": n_escape_ok,
-            "c17_selfescape_programs": self_rows.len(),
-            "c17_selfescape_rejected": n_self_reject,
-            "c17_selfescape_skipped": self_skipped,
-            "c17_table_rows": collected.rows.len(),
-            "c17_sites": collected.sites.len()
-        },
+        "distribution": distribution,
         "samples": samples,
         "disagreements": disagreements,
     });
